@@ -8,7 +8,7 @@ import io
 import itertools
 import os
 
-from mc import core, e2e, cmaptext, driver
+from mc import core, e2e, cmaptext, driver, worlds
 from mc.coma import (AlignmentResultRow, AlignmentResults, AlignmentSegment, AlignmentSegmentsWithResolvedConflicts,
                      ScoredAlignedPair, AlignedPair, PositionWithSiteId as P, Peak, OpticalMap)
 
@@ -175,8 +175,61 @@ def judge(ctx, mode, extra, obs, acc):
     return found
 
 
+class StdoutRuns(core.Layer):
+    """`coma ... > out.xmap`: without -o the XMAP is what the process prints; a run that also has something to say about its input
+    (a molecule that cannot be aligned) must still print a file that reads back"""
+    name = 'C:stdout'
+    optional = False
+
+    def __init__(self, n):
+        refs = e2e.std_refs()
+        self.worlds = []
+        for t in range(n):
+            ok = [worlds.as_map(e2e.QIDS[j], worlds.window_query(refs[(t + j) % 3], 10 + 7 * j + t, 14 + j, bool((t + j) % 2))[0][2]) for j in range(3)]
+            bad = [(5216, 5000.0, [100.0]), (8, 2000001.0, [0.0, 30000.0, 61000.0, 1000000.0, 1900000.0, 2000000.0])][:1 + t % 2]
+            self.worlds.append(dict(refs=refs, queries=ok[:2 + t % 2] + bad))
+        self.bounds = dict(worlds=n, modes=['best'], molecules_without_record=[1, 2])
+        self.rule = '%d worlds with 1-2 molecules that get no record, run through the real CLI without -o; standard output is the XMAP' % n
+
+    def nblocks(self):
+        return len(self.worlds)
+
+    def run_block(self, b, acc):
+        acc.seq += 1
+        found = self.run_item(self.worlds[b], acc)
+        case = dict(world=worlds.jsonable(self.worlds[b]))
+        for f in found:
+            acc.viol(f[0], case, f[1], f[2], f[3])
+        acc.sample(lambda: dict(world=b))
+
+    def run_item(self, w, acc):
+        found = []
+        rc, err, files = driver.run_cli(w, 'best', cpus=2, to_stdout=True)
+        rc2, err2, files2 = driver.run_cli(w, 'best', cpus=2)
+        if rc != 0 or rc2 != 0:
+            found.append(('cli-aborted', (err or err2)[-300:], 'cli', {}))
+            return found
+        ctx = e2e.RunCtx(w)
+        probs, n = e2e.readback_problems(files['main'], e2e._coma_readers(ctx), ctx.rmaps, ctx.qmaps)
+        for sym, detail, sig in probs:
+            found.append((sym, 'standard output as XMAP: %s' % detail, 'reader', sig))
+        if driver.strip_echo(files['main']) != driver.strip_echo(files2.get('main', '')):
+            extra = [l for l in files['main'].splitlines() if l not in files2.get('main', '').splitlines() and not l.startswith('# ')]
+            found.append(('stdout-differs-from-the-file-written-with-o', 'lines only on standard output: %s' % extra[:3], 'writer', {}))
+        if acc is not None:
+            acc.evals += 1
+            acc.transitions += 2
+            acc.state(('stdout', n))
+            acc.nontriv(('stdout', len(w['queries']), n))
+        return found
+
+    def replay(self, case):
+        w = case['world']
+        return self.run_item(dict(refs=[tuple(m) for m in w['refs']], queries=[tuple(m) for m in w['queries']]), None)
+
+
 def layers(tier, seed):
     ws = e2e.std_worlds(tier, seed, depth2=False)
-    return [Synthetic(3 if tier == 'quick' else 4),
+    return [Synthetic(3 if tier == 'quick' else 4), StdoutRuns(3 if tier == 'quick' else 12),
             e2e.WorldLayer('B:worlds', ws, judge, in_child=own_reader, bounds=dict(worlds=len(ws), modes=list(e2e.MODES)),
                            rule='every file (main,_1,_2) of every standard world x 4 modes, read back with both parsers and with the reader object the Program wrote it with')]
